@@ -69,6 +69,34 @@ CAUSE = {
  'C17-I': 'paths of one matcher never overlapped: Any("c", "c.d") added (caught by C15 at first run)',
  'C17-J': 'YAML scalars were plain: `!!str 10`, `&an 4`, `*an` added with wrong-type Type and a rejecting Custom',
  'C18-I': 'map keys of the Go values were pairwise different under natural ordering: keys equal up to leading zeros added (21 marshallings, fresh processes)',
+ # round 7
+ 'C01-M': 'needs two parallel lookups in a file above 64 KiB; C01 is sequential — caught by C06 (free-running -race pass over an 88 KB shared file), not by C01',
+ 'C01-N': 'needs an update racing with another test shrinking an earlier entry; C01 is sequential — C06 got `update-shrink` scenarios (an update that removes lines) and catches it, C01 does not claim it',
+ 'C02-M': 'texts differing only in how often a line repeats stopped at runs of 5: runs of 1..12 equal lines against 1 or 2 more, alone and between other lines, added (C02 and C13)',
+ 'C02-N': 'the recorded file was always exactly what the library wrote: the same file without its final newline, and with CR LF line ends, added before the mismatching replay',
+ 'C03-N': 'pre-existing files always ended in a newline: a file with the final newline trimmed added (last entry looked up, updated, left alone)',
+ 'C04-N': 'JSON update pairs always differed as values: pairs that are different texts but the same float64 / Go value added (1234567890123456789 vs …88, 0.1 vs 0.1000000000000000000001, 1.0 vs 1)',
+ 'C05-M': 'stored values of the mode cells were plain words: a stored value made of header-looking and near-terminator lines added',
+ 'C05-N': 'the UPDATE_SNAPS matrix had lenient spellings of true/clean but no other word a maintainer might give a meaning to: `always`, `force` added',
+ 'C06-M': 'the shared file always existed before the threads started: scenarios in which every thread creates and the file does not exist yet added',
+ 'C06-N': 'the -race pass shared Configs without a JSON option: one Config with every option (JSON format among them) shared by six tests calling the JSON/YAML entry points added',
+ 'C08-N': 'subtests owning standalone files under a skipped ancestor had word-character names: `en-GB`, `v1.2=x` added',
+ 'C09-N': 'live values had header look-alikes but no indented / blank-padded terminator look-alike: `  ---`, `--- `, tab + `---` added to them',
+ 'C10-M': 'no body with CR LF line ends (excluded as the documented limitation): added, with every comparison made modulo the CR that the reader drops anyway',
+ 'C11-N': 'test names had `%`, `.`, `_%d` but none of `: ? | * < >`: one added (C19 caught the same change)',
+ 'C12-M': 'option sets never differed in letter case only: Filename("CUST") next to "cust", Ext(".TXT") next to ".txt"; both calls of a pair are now made by the same test, and the addressed slot is compared when the two Configs address different files',
+ 'C13-N': 'the 210-line texts had a popular line at regular positions from the start: a record-shaped text (header line, then 99/100/130 × two lines, the second one popular) added',
+ 'C14-M': 'no top-level string whose content is itself JSON: "123", "true", "null", "[]", "{\\"b\\":1}" added',
+ 'C14-N': 'C14 only replayed the SAME document in other presentations: a different document that decodes to the same float64 must fail against it (C02 caught the change at first run through 1.0 / 1)',
+ 'C15-M': 'matcher lists held distinct instances: the same Custom instance three times between two occurrences of one Any instance, with a counting callback, added',
+ 'C15-N': 'Type was always instantiated with a concrete type: Type[any] added (placeholder names the value\'s own type, `<nil>` only for null)',
+ 'C16-M': 'variants of a masked string never looked like a placeholder: "<Any value>", "<Type:string>", "<Type:float64>" added as variants',
+ 'C16-N': 'unmasked variants changed whole scalars: pairs differing only in blanks/tabs ending a line of a block scalar, or in a blank line inside it, added (must not pass against each other)',
+ 'C17-M': 'paths of one YAML Any never extended each other textually: Any("$.b", "$.b_total") with the second one missing added',
+ 'C17-N': 'a malformed path was always alone in its matcher: Type over a malformed, a missing and a wrong-typed path added (all three named)',
+ 'C18-N': 'after an invalid document nothing else was done: the next call must be stored as slot 2',
+ 'C20-M': 'values of the histories were plain words: values with header-looking lines (one of them equal to the stale id) added',
+ 'C20-N': 'stale items lived in addressed files or in wholly stale files: an unaddressed file holding one entry of a test that called Skip and one stale entry added',
  # round 6
  'C01-K': 'the multi-entry drivers had test names with `#`, `/`, digits but none with `%`: TestA/50%_off, TestA/%d_%s (and `[x]`, `a:b*?`) added to C01',
  'C03-K': 'all pre-existing files were well formed: a file whose last entry lost its terminator is looked up first, then the intact slots of other tests must still replay',
@@ -90,7 +118,7 @@ CAUSE = {
  'C19-K': 'update pairs had no pair where the new value is a line-prefix of the old one: a\\nb → a, a\\n → a, a\\nb\\n\\nc → a\\nb added',
  'C19-J': 'test names had `%`, `#`, `/` but none of `: * ? " < > |`: two such names, and pairs of tests whose names differ only there, added',
 }
-letters = {1:'AB',2:'CD',3:'EF',4:'GH',5:'IJ',6:'KL'}[rnd]
+letters = {1:'AB',2:'CD',3:'EF',4:'GH',5:'IJ',6:'KL',7:'MN'}[rnd]
 rows=[]; own=anyc=valid=0
 for d in sorted(glob.glob('/verif/seeded/C??-['+letters+']')):
     m=json.load(open(d+'/meta.json'))
